@@ -400,6 +400,9 @@ def fm_spec(rng, p_mulch=0.25, p_bunds=0.25, p_inhb=0.15, p_cn=0.2, cn=None):
         pct = float(pick(rng, [-30, -10, 10, 25]))
         if cn is None or cn * (1 + pct / 100) <= 100:
             fm.update(curve_number_adj=True, curve_number_adj_pct=pct)
+    elif chance(rng, 0.15):
+        # a percentage left in place while the adjustment itself is switched off
+        fm.update(curve_number_adj=False, curve_number_adj_pct=float(pick(rng, [-30, 25, 40])))
     return fm
 
 
